@@ -20,7 +20,7 @@ UN = ["neg", "reverse", "involute", "conjugate", "normsq", "hodge", "inv"]
 NUMKINDS = ["int", "float", "Fraction", "np.float64", "np.int64"]
 RULE = ("case kinds: (array) operator on multivectors whose coefficients are arrays of trailing shape (), (n,), (n,m) -- one "
         "ndarray or a list of arrays -- compared after indexing with a generated index expression (ints, negative ints, slices, "
-        "tuples) against the operator applied to the indexed operands; (number) a Python / numpy number on either side of every "
+        "tuples, fancy lists) against the operator applied to the indexed operands; (number) a Python / numpy number on either side of every "
         "infix operator vs the explicit scalar multivector; (sequence) list / tuple on either side vs the element-wise results "
         "with the container type; (callable) zero-argument, possibly nested, callables on either side vs their value; (setitem) "
         "X[idx] = V through a multivector vs a numpy model array. Operands are chosen NON-commuting for the operator wherever "
@@ -44,6 +44,9 @@ def budget(tier):
 
 @st.composite
 def _index(draw, shape):
+    if draw(st.integers(0, 5)) == 0:
+        # numpy "fancy" index: a LIST of positions along the first trailing axis (not a tuple: a tuple addresses several axes)
+        return ["fancy", draw(st.lists(st.integers(0, shape[0] - 1), min_size=1, max_size=3))]
     parts = []
     for n in shape:
         k = draw(st.sampled_from(["int", "neg", "slice", "slice", "full"]))
@@ -99,6 +102,8 @@ def cases(tier):
 
 
 def _mk_index(parts):
+    if parts and parts[0] == "fancy":
+        return list(parts[1])
     out = []
     for p in parts:
         out.append(slice(p[1], p[2], p[3]) if isinstance(p, list) else p)
@@ -106,7 +111,7 @@ def _mk_index(parts):
 
 
 def _has_slice(parts):
-    return any(isinstance(p, list) for p in parts)
+    return any(isinstance(p, list) for p in parts) or (bool(parts) and parts[0] == "fancy")
 
 
 def _apply(op, opk, x, y):
@@ -150,7 +155,7 @@ def _close(g, e):
                     return False, f"blade {k}: shapes {ga.shape} vs {ea.shape}"
                 if np.asarray(gv).shape != np.asarray(ev).shape and not (np.asarray(gv).size == 1 or np.asarray(ev).size == 1):
                     return False, f"blade {k}: shapes {np.asarray(gv).shape} vs {np.asarray(ev).shape}"
-            if not np.allclose(ga, ea, rtol=1e-12, atol=1e-12):
+            if not np.allclose(ga, ea, rtol=1e-12, atol=1e-12, equal_nan=True):
                 return False, f"blade {k}: got {gv!r}, expected {ev!r}"
         except Exception as ex:
             return False, f"blade {k}: not comparable: {ex}"
